@@ -130,6 +130,9 @@ def run_batch(module, items, env_key, cfg=None, procs=None, workers=4, tag="RESU
                     fails.append(m.group(1))
             hard = [e for e in r.errors if "Invariant" not in e and "is violated" not in e and "behavior up to this point" not in e]
             if hard or ("Finished in" not in r.out):
+                if os.environ.get("HGVERIF_DEBUG"):
+                    with open(os.environ["HGVERIF_DEBUG"], "w") as f:
+                        f.write(r.out)
                 raise TLCError("TLC failed: " + " | ".join(e[:300] for e in r.errors[:5]) + "\n" + r.out[-1500:])
         stats = {"states": sum(r.distinct for r in rs), "transitions": sum(r.generated for r in rs),
                  "wall": time.time() - t0, "procs": procs, "l1fail": sorted(set(fails))}
